@@ -3,7 +3,7 @@
 // conversion dispatch in three numeric types (scalar, container, constructor, accessor, printing),
 // compile-time paths, comparison. Included after the library header(s) by generated TUs.
 //   VF_E       the enumeration, e.g. PhQ::Unit::Length
-//   VF_KIND    0 unit type, 1 unit system, 2 model type
+//   VF_KIND    0 unit type, 1 unit system, 2 model type, 3 model type plus constitutive model objects (the three model headers included)
 //   VF_Q       (unit types) a quantity class template measured in it, e.g. PhQ::Length; VF_NCOMP its components
 #pragma once
 #include <array>
@@ -107,6 +107,27 @@ void per_numeric_type(std::ostringstream& o) {
 }
 #endif
 
+#if VF_KIND == 3
+// constitutive model objects: every serialisation and the maps, through the class and through the abstract interface
+template <class T>
+void models(std::ostringstream& o) {
+  using namespace PhQ;
+  const ConstitutiveModel::ElasticIsotropicSolid<T> solid(YoungModulus<T>((T)200, Unit::Pressure::Gigapascal), PoissonRatio<T>((T)0.3));
+  const ConstitutiveModel::IncompressibleNewtonianFluid<T> water(DynamicViscosity<T>((T)1.5, Unit::DynamicViscosity::PascalSecond));
+  const ConstitutiveModel::CompressibleNewtonianFluid<T> air(DynamicViscosity<T>((T)2.5, Unit::DynamicViscosity::PascalSecond), BulkDynamicViscosity<T>((T)0.5, Unit::DynamicViscosity::PascalSecond));
+  const ConstitutiveModel::CompressibleNewtonianFluid<T> air0(DynamicViscosity<T>((T)2.5, Unit::DynamicViscosity::PascalSecond));
+  const Strain<T> eps((T)0.001, (T)0.002, (T)-0.001, (T)0.0005, (T)0, (T)0.003);
+  const StrainRate<T> rate({(T)1, (T)2, (T)-1, (T)0.5, (T)0, (T)3}, Unit::Frequency::Hertz);
+  o << solid.Print() << ';' << solid.JSON() << ';' << solid.XML() << ';' << solid.YAML() << ';' << solid << ';' << water.Print() << ';' << water.JSON() << ';' << water.XML() << ';' << water.YAML() << ';'
+    << water << ';' << air.Print() << ';' << air.JSON() << ';' << air.XML() << ';' << air.YAML() << ';' << air << ';' << air0.JSON() << ';';
+  const ConstitutiveModel* all[] = {&solid, &water, &air, &air0};
+  for (const ConstitutiveModel* m : all) {
+    o << (int)static_cast<int8_t>(m->GetType()) << ',' << Abbreviation(m->GetType()) << ',' << m->Print() << ',' << m->JSON() << ',' << m->XML() << ',' << m->YAML() << ',' << *m << ','
+      << m->Stress(eps, rate).Print() << ',' << m->Strain(m->Stress(eps, rate)).JSON() << ',' << m->StrainRate(m->Stress(eps, rate)).YAML() << '|';
+  }
+}
+#endif
+
 inline std::string observe() {
   using namespace PhQ;
   std::ostringstream o;
@@ -129,6 +150,11 @@ inline std::string observe() {
   per_numeric_type<float>(o);
   per_numeric_type<double>(o);
   per_numeric_type<long double>(o);
+#endif
+#if VF_KIND == 3
+  models<float>(o);
+  models<double>(o);
+  models<long double>(o);
 #endif
   return o.str();
 }
